@@ -17,6 +17,32 @@ type gtLoop struct {
 	list     bool     // structural recursion over a list (range with a value) instead of fuel
 	implicit []string // implicit arguments (V, val_*, uni_*, f_*), known once the body is translated
 	free     []string // names of the enclosing function that the body reads, in binder order
+	freeKeys []stKey  // ... and the variables they are
+}
+
+// loopCache: a loop that is reached along several paths (the continuation of an if is translated once per branch) is
+// translated once, provided the variables in scope have the same standing each time.
+type loopCache struct {
+	lp    *gtLoop
+	sub   *gtFn
+	state []stKey
+	sig   string
+}
+
+// envSig: what, besides names, the translation of a statement depends on in the environment.
+func envSig(env *venv) string {
+	var parts []string
+	for i, sc := range env.scopes {
+		for n, v := range sc {
+			k := ""
+			if v.known != nil {
+				k = v.known.ExactString()
+			}
+			parts = append(parts, fmt.Sprintf("%d/%s/%s/%s/%s/%v", i, n, v.typ.name, k, v.banned, v.indexOf != nil))
+		}
+	}
+	sort.Strings(parts)
+	return strings.Join(parts, ";")
 }
 
 func tupleOf(names []string) string {
@@ -40,10 +66,10 @@ func (lp *gtLoop) nextText(state []string) string {
 	return strings.Join(parts, " ")
 }
 
-func (lp *gtLoop) callText(init []string) string {
+func (lp *gtLoop) callText(init, free []string) string {
 	parts := append([]string{lp.name}, init[0])
 	parts = append(parts, lp.implicit...)
-	parts = append(parts, lp.free...)
+	parts = append(parts, free...)
 	parts = append(parts, init[1:]...)
 	return strings.Join(parts, " ")
 }
@@ -51,6 +77,7 @@ func (lp *gtLoop) callText(init []string) string {
 type nLoop struct {
 	lp    *gtLoop
 	binds []gbind
+	free  []string // the current names of the variables the loop reads
 	init  []string // the fuel (or the list), then the initial state
 	pat   string   // pattern for the state at the exit
 	after gnode
@@ -62,9 +89,10 @@ type nLoopNext struct {
 type nLoopExit struct{ state []string }
 
 // visible: every Coq name that holds a variable (or a field of a struct variable) of env, with its Coq type.
-func (tr *gtTr) visible(env *venv) (map[string]string, map[string]int) {
+func (tr *gtTr) visible(env *venv) (map[string]string, map[string]int, map[string]stKey) {
 	out := map[string]string{}
 	rank := map[string]int{}
+	refs := map[string]stKey{}
 	for _, sc := range env.scopes {
 		for _, v := range sc {
 			if v.banned != "" || v.indexOf != nil || v.known != nil {
@@ -81,16 +109,18 @@ func (tr *gtTr) visible(env *venv) (map[string]string, map[string]int) {
 					}
 					out[n] = fl.typ.coq()
 					rank[n] = v.seq*1000 + i + 1
+					refs[n] = stKey{v.goName, fl.name}
 				}
 				continue
 			}
 			if v.typ.supported() {
 				out[v.coq] = v.typ.coq()
 				rank[v.coq] = v.seq * 1000
+				refs[v.coq] = stKey{v.goName, ""}
 			}
 		}
 	}
-	return out, rank
+	return out, rank, refs
 }
 
 // loopSpec: how one loop runs.
@@ -136,6 +166,40 @@ func (tr *gtTr) loop(sp loopSpec, env *venv, next cont) gnode {
 	}
 	next = restore(next)
 
+	sig := envSig(env)
+	if c := tr.loopCache[sp.node]; c != nil && c.sig == sig {
+		var init, free []string
+		for _, k := range c.state {
+			n, _ := tr.useKey(env, k)
+			init = append(init, n)
+		}
+		for _, k := range c.lp.freeKeys {
+			n, _ := tr.useKey(env, k)
+			free = append(free, n)
+		}
+		tr.inherit(c.sub)
+		first := sp.fuel
+		var binds []gbind
+		if sp.list != nil {
+			first, binds = sp.list.code, sp.list.binds
+		}
+		all := append([]string{first}, init...)
+		if sp.list != nil && sp.keyName != "" && sp.keyName != "_" {
+			all = append(all, "0%Z")
+		}
+		var pats []string
+		for _, k := range c.state {
+			n := tr.newName(k.base())
+			tr.setKeyName(env, k, n)
+			pats = append(pats, n)
+		}
+		pat := "_"
+		if len(pats) > 0 {
+			pat = tupleOf(pats)
+		}
+		return &nLoop{lp: c.lp, binds: binds, free: free, init: all, pat: pat, after: next(env)}
+	}
+
 	// the state: what the body and the post statement assign, of what is visible here
 	keys, _, _ := tr.assignedIn([]ast.Node{sp.body, sp.post}, env)
 	state := sortKeys(keys, env)
@@ -146,7 +210,7 @@ func (tr *gtTr) loop(sp loopSpec, env *venv, next cont) gnode {
 	var params []string // binders of the state
 	var stTypes []string
 	inner := env.clone()
-	visible, rank := tr.visible(env)
+	visible, rank, refs := tr.visible(env)
 	for _, k := range state {
 		cur, t := tr.useKey(env, k)
 		if !t.supported() {
@@ -246,6 +310,13 @@ func (tr *gtTr) loop(sp loopSpec, env *venv, next cont) gnode {
 	for _, n := range lp.free {
 		freeBinders = append(freeBinders, "("+n+" : "+visible[n]+")")
 		tr.usedVars[n] = true
+		lp.freeKeys = append(lp.freeKeys, refs[n])
+	}
+	if tr.loopCache == nil {
+		tr.loopCache = map[ast.Node]*loopCache{}
+	}
+	if tr.loopCache[sp.node] == nil {
+		tr.loopCache[sp.node] = &loopCache{lp: lp, sub: sub, state: state, sig: sig}
 	}
 
 	// emit the loop function (once: the same loop reached along two paths is translated twice)
@@ -309,7 +380,7 @@ func (tr *gtTr) loop(sp loopSpec, env *venv, next cont) gnode {
 	if keyCoq != "" {
 		all = append(all, "0%Z")
 	}
-	return &nLoop{lp: lp, binds: binds, init: all, pat: pat, after: next(after)}
+	return &nLoop{lp: lp, binds: binds, free: lp.free, init: all, pat: pat, after: next(after)}
 }
 
 func keyStrings(ks []stKey) []string {
@@ -507,6 +578,10 @@ Fixpoint go_set_nth_nat {A : Type} (l : list A) (i : nat) (v : A) : list A :=
   end.
 Definition go_set_nth {A : Type} (l : list A) (i : Z) (v : A) : option (list A) :=
   if orb (Z.ltb i 0%Z) (Z.leb (go_len l) i) then None else Some (go_set_nth_nat l (Z.to_nat i) v).
+(* strings.TrimPrefix / TrimSuffix *)
+Definition go_trim_prefix (p s : bstr) : bstr := if is_prefix p s then drop (List.length p) s else s.
+Definition go_trim_suffix (p s : bstr) : bstr :=
+  if go_has_suffix p s then take (Nat.sub (List.length s) (List.length p)) s else s.
 (* s[lo:hi] on a slice: None = bounds out of range (the capacity is not modelled: hi <= len) *)
 Definition go_slice_l {A : Type} (s : list A) (lo hi : Z) : option (list A) :=
   if orb (Z.ltb lo 0%Z) (orb (Z.ltb hi lo) (Z.ltb (go_len s) hi)) then None
